@@ -4,6 +4,11 @@ TB = ("Trusted: Coq 8.16.1 kernel + vm_compute (no native_compute, no axioms: ev
       "the hand-written Gallina model, tied to /repo only by the correspondence check of each run (sampled behaviours); the Go harness (generators, oracles) ")
 SRV = ("; the server model (Model/Server.v: evaluatePushPullCase, processSubscribeOrCreate, push/pull/commit over an abstract document store) and the client protocol model (Model/Wire.v) are replayed on every run against the real OrdaService running in process over an in-memory MongoDB/MQTT stand-in and real clients: every request, response, store state and publish must coincide")
 TEXTS = {
+ "C14": {
+  "text": "Theorems: every JSON-representable value decodes back to itself at any nesting depth; timestamps survive the omission of zero fields; every operation of the 12 body-carrying types encodes to a message that decodes to the same operation (identifier, type, body), also through the stored document where the type travels by name (the two enum tables are proved mutually inverse). On every run 1500 operations built with the public constructors from Go values of every numeric width, pointers, structs, maps, slices and strings over arbitrary code points go through ToModelOperation -> protobuf bytes -> OperationDoc -> BSON bytes -> back -> ModelToOperation and through the encoding-echo service; the produced message is compared with the model's and the decoded operation with the original.",
+  "note": TB + "; encoding/json, protobuf, BSON and float64 are exercised, not modelled; known finding: integers beyond 2^53 nested inside container values are not converted to float64 by the sender and so differ after decoding.",
+  "technique": "Coq proof (round trips by nested induction; finite enum table by computation) + in-Coq comparison of real encoded messages + Go round-trip oracle",
+ },
  "C10": {
   "text": "Theorems over the marshalled snapshot forms (Model/Snapshot.v): for counter and list unmarshal(marshal s) = s exactly (tombstones, update and order timestamps, Size), so every continuation is answered identically; for the map the restored state has the same entry under every key and the same Size, that relation is a congruence for every later remote and local operation (same emitted operation, same returned value), gives the same JSON view, and re-exporting yields the same snapshot (sorting is proved canonical). On every run the snapshot and metadata exported by a real replica after a random multi-replica history are compared field by field with the model's marshalled form, imported into a fresh real instance, re-exported, and original and restored instance are driven side by side with further remote operations.",
   "note": TB + "; Document snapshots (node table, cemetery) are not modelled yet; encoding/json itself is exercised, not modelled.",
